@@ -12,16 +12,16 @@ import (
 
 // HSpec describes one harness of a property.
 type HSpec struct {
-	Pkg      string         // repo package dir ("." for the root package)
-	Name     string         // registered harness name; the function is vpH_<Name>
-	Quick    map[string]int // parameters (bounds) per tier
-	Thorough map[string]int
-	Unwind   [2]int   // loop bound quick/thorough
-	Budget   [2]int   // wall-clock budget in seconds quick/thorough
-	Models   []string // "lib.Func=vpModelFunc" replacements
-	FixedMapOrder bool // range over Go maps in insertion order only (order-sensitivity is decided elsewhere; stated in evidence)
-	Validate []string // native model validations to run (names registered with vpRegisterModelCheck)
-	What     string   // one line: what it decides
+	Pkg           string         // repo package dir ("." for the root package)
+	Name          string         // registered harness name; the function is vpH_<Name>
+	Quick         map[string]int // parameters (bounds) per tier
+	Thorough      map[string]int
+	Unwind        [2]int   // loop bound quick/thorough
+	Budget        [2]int   // wall-clock budget in seconds quick/thorough
+	Models        []string // "lib.Func=vpModelFunc" replacements
+	FixedMapOrder bool     // range over Go maps in insertion order only (order-sensitivity is decided elsewhere; stated in evidence)
+	Validate      []string // native model validations to run (names registered with vpRegisterModelCheck)
+	What          string   // one line: what it decides
 }
 
 // PropSpec is the registry entry of a property.
@@ -52,27 +52,27 @@ type HResult struct {
 
 // PropRun accumulates everything a run of one property produced.
 type PropRun struct {
-	Spec     PropSpec
-	Tier     string
-	Seed     int
-	Results  []*HResult
-	Extra    []ExtraResult
-	Started  time.Time
-	Inconclusive []string
+	Spec            PropSpec
+	Tier            string
+	Seed            int
+	Results         []*HResult
+	Extra           []ExtraResult
+	Started         time.Time
+	Inconclusive    []string
 	ModelValidation []string
 }
 
 type ExtraResult struct {
-	Name        string   `json:"name"`
-	Obligations int      `json:"obligations"`
-	Discharged  int      `json:"discharged"`
-	Detail      []string `json:"detail,omitempty"`
-	Violations  []string `json:"violations,omitempty"`
-	SolverS     float64  `json:"solver_s"`
-	Inconclusive []string `json:"inconclusive,omitempty"`
-	Witness     string   `json:"witness,omitempty"` // a concrete input to replay natively through WitnessHarness
-	WitnessHarness string `json:"witness_harness,omitempty"`
-	WitnessPkg  string   `json:"witness_pkg,omitempty"`
+	Name           string   `json:"name"`
+	Obligations    int      `json:"obligations"`
+	Discharged     int      `json:"discharged"`
+	Detail         []string `json:"detail,omitempty"`
+	Violations     []string `json:"violations,omitempty"`
+	SolverS        float64  `json:"solver_s"`
+	Inconclusive   []string `json:"inconclusive,omitempty"`
+	Witness        string   `json:"witness,omitempty"` // a concrete input to replay natively through WitnessHarness
+	WitnessHarness string   `json:"witness_harness,omitempty"`
+	WitnessPkg     string   `json:"witness_pkg,omitempty"`
 }
 
 func tierIndex(tier string) int {
@@ -190,7 +190,7 @@ type KnownFinding struct {
 	Property string `json:"property"`
 	Status   string `json:"status"` // "known" or "fixed"
 	Harness  string `json:"harness,omitempty"`
-	Label    string `json:"label,omitempty"`  // assertion label (or panic message prefix) identifying the failing class
+	Label    string `json:"label,omitempty"` // assertion label (or panic message prefix) identifying the failing class
 	What     string `json:"what"`
 	Commit   string `json:"commit,omitempty"`
 }
